@@ -277,8 +277,7 @@ def fmtShown : Option Fmt → String
 
 def parseFmtArg (s : String) : Option String := if s == "-" then none else some s
 
-def storedFam {P} : Stored P → String
-  | .asdf _ => "asdf" | .fits _ => "fits" | .pickle _ => "pickle"
+def storedFam {P} (st : Stored P) : String := st.fmt.name
 
 /-- answer of `filert`: write status, the format of the file written, read status, object read -/
 def filertAnswer {P α} (w : Except Err (Stored P)) (rd : Stored P → Except Err α)
@@ -338,6 +337,12 @@ def chainField (l : Layout) (hops : List Hop) (f : Field) : Except Err Field :=
     let xi ← fieldChain AsdfLib.observed lh { f with values := { f.values with data := im } }
     pure { xr with values := { xr.values with data := interleave xr.values.data xi.values.data } }
   else fieldChain AsdfLib.observed lh f
+
+def parseRoute? (s : String) : Option Route :=
+  match s with
+  | "dict" => some .dict | "asdf" => some .asdf | "pickle" => some .pickle | "pickle-object" => some .pickleObject
+  | "fits-tree" => some .fitsTree | "fits-image-field" => some .fitsImageField
+  | "fits-image-basis" => some .fitsImageBasis | _ => none
 
 def step (st : St) : List String → St × String
   | ["dict", "gridold", t] =>
@@ -464,6 +469,40 @@ def step (st : St) : List String → St × String
       | .ok b => (st, fitsAnswer (writeBasisFitsOld b) readBasisFitsOld ModeBasis.toDict)
       | .error e => (st, "err " ++ showErr e)
     | _, _ => (st, "bad-op")
+  | ["dtype", route, ds, vals] =>
+    match parseRoute? route, DType.parse? ds, parseRatList? vals with
+    | some r, some d, some vs =>
+      if !d.wellFormed || !DType.all.contains d then (st, "bad-op") else
+      match readDType r d with
+      | .error e => (st, "err " ++ showErr e)
+      | .ok d' =>
+        match r, fitsCard d with
+        | .fitsImageField, .ok c | .fitsImageBasis, .ok c =>
+          let stored := vs.map c.store
+          (st, s!"ok read={d'.str} tag={d.tag} holds={vs.all fun v => d.kind == .float || d.kind == .complex || (v.den == 1 && d.holds v.num)} card={c.bitpix}/{c.bzero} " ++
+               s!"fits={stored.all fun x => x.den != 1 || c.fits x.num} stored={showRatList stored} back={showRatList (stored.map c.load)}")
+        | _, _ => (st, s!"ok read={d'.str} tag={d.tag} holds={vs.all fun v => d.kind == .float || d.kind == .complex || (v.den == 1 && d.holds v.num)}")
+    | _, _, _ => (st, "bad-op")
+  | ["spstore", fmt, variant, t] =>
+    match parseTree? t with
+    | some t =>
+      match Csc.fromDict t with
+      | .ok raw =>
+        let store? : Option SpStore :=
+          if fmt == "csc" then some (.csc raw) else if fmt == "csr" then some (.csr raw)
+          else if fmt == "other" then some .noIndices else none
+        match store?, variant with
+        | some store, "new" =>
+          match store.toCsc with
+          | some c => (st, s!"ok wf={c.wellFormed} dense={showArr (cscToDense c)} csrdense={showArr (match store with | .csr r => csrToDense r | _ => cscToDense c)} tree=" ++ showTree c.toDict)
+          | none => (st, "ok unmodelled")
+        | some store, "old" =>
+          match store.toDictOld with
+          | .ok tr => (st, s!"ok wf={match Csc.fromDict tr with | .ok c => c.wellFormed | .error _ => false} tree=" ++ showTree tr)
+          | .error e => (st, "err " ++ showErr e)
+        | _, _ => (st, "bad-op")
+      | .error _ => (st, "bad-op")
+    | none => (st, "bad-op")
   | ["guess", name] => (st, "ok " ++ fmtShown (guessFormat name.toList))
   | ["format", name, fmt] =>
     match formatOf name.toList (parseFmtArg fmt) with
